@@ -3,6 +3,7 @@ package c19
 import (
 	"fmt"
 	"reflect"
+	"regexp"
 	"sort"
 	"strings"
 
@@ -104,6 +105,8 @@ func Decode(s *Schema, r *Rendered) (d *Decoded) {
 func (d *Decoded) hasErrDec() bool { return d.ParseErr || d.DecErr }
 func (d *Decoded) hasErrGo() bool  { return d.ParseErr || d.GoErr }
 
+var reItemName = regexp.MustCompile(`\b[abl][0-9]\b`)
+
 // Mismatch is one disagreement between the original and a rewrite.
 type Mismatch struct {
 	Clause  string // "value" | "has-error" | "panic"
@@ -171,7 +174,11 @@ func errMismatch(dec string, origErr bool, origDiags, rwDiags []string) Mismatch
 	// the shape names one diagnostic (the alphabetically first summary): the full set
 	// varies with the configuration and would split one defect over many signatures
 	first := func(d []string) string {
-		u := uniqSorted(d)
+		var n []string
+		for _, x := range d {
+			n = append(n, reItemName.ReplaceAllString(x, "_")) // item names depend on the position in the schema
+		}
+		u := uniqSorted(n)
 		if len(u) == 0 {
 			return "-"
 		}
